@@ -57,6 +57,7 @@ func (rep *Report) Finish() int {
 	total := 0
 	idealCount := 0
 	crossed := 0
+	crossUnconfirmed := []string{}
 	var failed []*ObResult
 	covers, coversSat := 0, 0
 	skipped := 0
@@ -83,8 +84,11 @@ func (rep *Report) Finish() int {
 			if r.Ob.Ideal {
 				idealCount++
 			}
-			if r.Cross != "" && !strings.Contains(r.Cross, "DISAGREES") {
+			if r.Cross != "" && !strings.Contains(r.Cross, "DISAGREES") && !strings.Contains(r.Cross, "unconfirmed") {
 				crossed++
+			}
+			if strings.Contains(r.Cross, "unconfirmed") {
+				crossUnconfirmed = append(crossUnconfirmed, r.FullName()+" "+r.Cross)
 			}
 		} else {
 			failed = append(failed, r)
@@ -244,7 +248,8 @@ func (rep *Report) Finish() int {
 			"obligations_ideal":                       idealCount,
 			"vacuity_covers_checked":                  covers,
 			"vacuity_covers_satisfied":                coversSat,
-			"cross_checked_by_second_solver":          crossed,
+			"second_solver_sat_not_confirmed_by_third": crossUnconfirmed,
+		"cross_checked_by_second_solver":          crossed,
 			"solver_cpu_ms":                           solverMs,
 			"load_ssa_s":                              rep.LoadT.Seconds(),
 			"bounded_checks":                          bounded,
